@@ -74,7 +74,7 @@ def run(ctx):
                        {"kind": "coq_eval"}, failing_input=False)
             return
         bad += [(group[k][0], code) for k, code in b]
-    for i, code in bad:
+    for i, code in sorted(bad, key=lambda x: (x[1], x[0])):   # failing inputs (code 1) first
         j = jsons[i]
         if ctx.nreplay < 5:
             j = minimise(ctx, header, j)
